@@ -178,6 +178,8 @@ def run(
 ) -> TLCResult:
     """Model-check ``module`` (a module in spec/ or one of ``extra_modules``,
     given as {name: text}) with the cfg text ``cfg``."""
+    if workers == "auto" and os.environ.get("VERIF_TLC_WORKERS"):
+        workers = os.environ["VERIF_TLC_WORKERS"]
     work = Path(tempfile.mkdtemp(prefix="tlc_", dir=os.environ.get("VERIF_TMP")))
     try:
         for name, text in (extra_modules or {}).items():
@@ -403,3 +405,17 @@ def sany(module_path: Path) -> None:
     )
     if p.returncode != 0 or "Fatal errors" in p.stdout or "*** Errors" in p.stdout or "Could not parse" in p.stdout:
         raise TLCMachineryError(f"SANY failed on {module_path}:\n{p.stdout[-3000:]}")
+
+
+def mc_module(base: str, defs: dict[str, str], name: str | None = None) -> tuple[str, dict, dict]:
+    """Wrapper module that EXTENDS ``base`` and defines every constant as an
+    operator (cfg files cannot hold sequences, intervals or functions).
+    Returns (module name, {name: text} for extra_modules, constants for make_cfg)."""
+    name = name or f"{base}_MC"
+    lines = [f"---- MODULE {name} ----", f"EXTENDS {base}"]
+    consts = {}
+    for k, v in defs.items():
+        lines.append(f"MC_{k} == {v}")
+        consts[k] = f"<- MC_{k}"
+    lines.append("====")
+    return name, {name: "\n".join(lines) + "\n"}, consts
